@@ -4,6 +4,7 @@ Comma-joined specifier sets of any length: `parse_constraint` folds `intersect` 
 -/
 import PoetryVerif.Proofs.VRangeSpecFinal
 import PoetryVerif.Proofs.VRangeWalk
+import PoetryVerif.Proofs.VRangeDiffU
 
 set_option linter.unusedSimpArgs false
 set_option linter.unusedVariables false
@@ -66,5 +67,209 @@ theorem foldIntersect_exact (L : List Version) (hL : ∀ e ∈ L, e.loc = none) 
           · exact hn.2 e h1)
         (hex v hv hregmn) (fun x hx => hrest x (by simp [hx]))
       exact ⟨c, hc1, by rw [hc2, hb']; simp [Bool.and_assoc]⟩
+
+/-! ### sets with any operator, in the regular setting -/
+
+/-- a fold of `intersect` over well-formed constraints with regular members: defined, closed, exact -/
+theorem foldIntersect_reg {B : List Version} (hB : RegB B) : ∀ (cs : List VC) (c : VC), c.WF →
+    (∀ x ∈ c.flatten, RegMember B x) → (∀ d ∈ cs, d.WF ∧ ∀ x ∈ d.flatten, RegMember B x) →
+    ∃ res, cs.foldlM VC.intersect c = .ok res ∧ res.WF ∧ (∀ x ∈ res.flatten, RegMember B x) ∧
+      ∀ p, p.wf = true → Regular B p → res.allowsPlain p = (c.allowsPlain p && cs.all (fun d => d.allowsPlain p))
+  | [], c, hc, hm, _ => ⟨c, rfl, hc, hm, fun p _ _ => by simp⟩
+  | d :: ds, c, hc, hm, hds => by
+    obtain ⟨hd, hdm⟩ := hds d (by simp)
+    obtain ⟨r, hr, hrwf, hrm, hrsem⟩ := VC.intersect_reg hB c d hc hd hm hdm
+    obtain ⟨res, h1, h2, h3, h4⟩ := foldIntersect_reg hB ds r hrwf hrm (fun e he => hds e (by simp [he]))
+    refine ⟨res, by simp only [List.foldlM_cons, bind, Except.bind, hr]; exact h1, h2, h3, fun p hp hreg => ?_⟩
+    rw [h4 p hp hreg, hrsem p hp (hreg.mono (by
+      intro e he
+      simp only [List.mem_append, boundsOf, List.mem_flatMap] at he
+      rcases he with ⟨x, hx, hxe⟩ | ⟨x, hx, hxe⟩
+      · exact (hm x hx).2.2.2 e hxe
+      · exact (hdm x hx).2.2.2 e hxe))]
+    simp [Bool.and_assoc]
+
+/-- the bounds of the constraint the parser builds for a clause (literals and derived upper ends) -/
+def clauseBounds : SOp → Version → List Version
+  | .compat, V => [V, compatHigh V]
+  | .eqStar, V => [V.firstDevrelease, V.nextStable.firstDevrelease]
+  | .neStar, V => [V.firstDevrelease, V.nextStable.firstDevrelease]
+  | _, V => [V]
+
+theorem oneSided_lower_reg (B : List Version) (V : Version) (incl : Bool) (hV : V.wf = true) (hm : V ∈ B) :
+    RegMember B (.rng ⟨some V, none, incl, false⟩) := by
+  refine ⟨⟨?_, ?_⟩, ⟨fun h => by simp at h, fun _ => rfl⟩, ?_, ?_⟩
+  · intro e he; simp [VRange.bounds] at he; subst he; exact hV
+  · intro m M _ hM; simp at hM
+  · show VRange.isStrictlyLower _ _ = false
+    simp [VRange.isStrictlyLower, VRange.allowedMax]
+  · intro e he; simp [RC.bounds, RC.view, VRange.bounds, RC.min, RC.max] at he; subst he; exact hm
+
+theorem oneSided_upper_reg (B : List Version) (V : Version) (incl : Bool) (hV : V.wf = true) (hm : V ∈ B) :
+    RegMember B (.rng ⟨none, some V, false, incl⟩) := by
+  refine ⟨⟨?_, ?_⟩, ⟨fun _ => rfl, fun h => by simp at h⟩, ?_, ?_⟩
+  · intro e he; simp [VRange.bounds] at he; subst he; exact hV
+  · intro m M hm'; simp at hm'
+  · show VRange.isStrictlyLower _ _ = false
+    unfold VRange.isStrictlyLower VRange.allowedMin
+    cases (⟨none, some V, false, incl⟩ : VRange).allowedMax <;> rfl
+  · intro e he; simp [RC.bounds, RC.view, VRange.bounds, RC.min, RC.max] at he; subst he; exact hm
+
+theorem twoSided_union_wf {B : List Version} (D E : Version) (hD : D.wf = true) (hE : E.wf = true)
+    (hle : vk D ≤ vk E) (incl : Bool) (hinc : incl = true → vk D < vk E) (hDm : D ∈ B) (hEm : E ∈ B) :
+    (VC.union [.rng ⟨none, some D, false, false⟩, .rng ⟨some E, none, incl, false⟩]).WF ∧
+    ∀ x ∈ (VC.union [.rng ⟨none, some D, false, false⟩, .rng ⟨some E, none, incl, false⟩]).flatten, RegMember B x := by
+  have m1 := oneSided_upper_reg B D false hD hDm
+  have m2 := oneSided_lower_reg B E incl hE hEm
+  have hsl : (⟨none, some D, false, false⟩ : VRange).isStrictlyLower ⟨some E, none, incl, false⟩ = true :=
+    VRange.sl_of_max_le_min_excl (M := D) (m := E) rfl rfl hle rfl
+  have hadj : (⟨none, some D, false, false⟩ : VRange).isAdjacentTo ⟨some E, none, incl, false⟩ = false := by
+    unfold VRange.isAdjacentTo
+    cases incl with
+    | false => simp
+    | true =>
+      have := hinc rfl
+      simp [optVerEq, (eqv_false_iff D E).2 (ne_of_lt this)]
+  refine ⟨⟨by simp, ?_, ?_, ⟨⟨hsl, hadj⟩, trivial⟩⟩, ?_⟩
+  · intro c hc
+    simp only [List.mem_cons, List.mem_nil_iff, or_false] at hc
+    rcases hc with rfl | rfl
+    · exact ⟨m1.1, m1.2.2.1⟩
+    · exact ⟨m2.1, m2.2.2.1⟩
+  · simp only [SortedRC, List.pairwise_cons, List.mem_singleton, forall_eq, List.not_mem_nil, false_implies,
+      implies_true, List.Pairwise.nil, and_true]
+    exact hsl
+  · intro c hc
+    simp only [VC.flatten, List.mem_cons, List.mem_nil_iff, or_false] at hc
+    rcases hc with rfl | rfl
+    · exact m1
+    · exact m2
+
+/-- the grammar's side conditions on a clause, with the wildcard literals final -/
+def ClauseOk' (op : SOp) (V : Version) : Prop :=
+  V.wf = true ∧ (op ≠ .eq → op ≠ .ne → V.loc = none) ∧ (op = .compat → 2 ≤ V.precision) ∧
+  ((op = .eqStar ∨ op = .neStar) → V.isFinal = true)
+
+/-- **every clause's constraint is a well-formed constraint over regular members** (over a regular bound set
+containing the clause's bounds) -/
+theorem clauseVC_reg {B : List Version} (hB : RegB B) (op : SOp) (V : Version) (hok : ClauseOk' op V)
+    (hb : ∀ e ∈ clauseBounds op V, e ∈ B) :
+    ∃ c, clauseVC op V = .ok c ∧ c.WF ∧ ∀ x ∈ c.flatten, RegMember B x := by
+  obtain ⟨hV, hloc, hprec, hfin⟩ := hok
+  have single : ∀ m : RC, RegMember B m → (VC.single m).WF ∧ ∀ x ∈ (VC.single m).flatten, RegMember B x :=
+    fun m hm => ⟨⟨hm.1, hm.2.2.1⟩, fun x hx => by simp [VC.flatten] at hx; subst hx; exact hm⟩
+  cases op with
+  | eq =>
+    exact ⟨_, rfl, single (.ver V) ⟨hV, trivial, trivial, by
+      intro e he; simp [RC.bounds_ver] at he; subst he; exact hb e (by simp [clauseBounds])⟩⟩
+  | lt => exact ⟨_, rfl, single _ (oneSided_upper_reg B V false hV (hb V (by simp [clauseBounds])))⟩
+  | le => exact ⟨_, rfl, single _ (oneSided_upper_reg B V true hV (hb V (by simp [clauseBounds])))⟩
+  | gt => exact ⟨_, rfl, single _ (oneSided_lower_reg B V false hV (hb V (by simp [clauseBounds])))⟩
+  | ge => exact ⟨_, rfl, single _ (oneSided_lower_reg B V true hV (hb V (by simp [clauseBounds])))⟩
+  | ne =>
+    have hVB := hb V (by simp [clauseBounds])
+    exact ⟨_, rfl, twoSided_union_wf V V hV hV (le_refl _) false (fun h => by cases h) hVB hVB⟩
+  | compat =>
+    obtain ⟨hHfin, hlt, hHwf, _, _, _, _⟩ := compat_facts V hV (hprec rfl)
+    refine ⟨_, rfl, single _ (regMember_of_good hB _ ⟨?_, ?_⟩ ⟨fun h => by simp at h, fun h => by simp at h⟩ ?_)⟩
+    · intro e he; simp [VRange.bounds] at he; rcases he with rfl | rfl; exact hV; exact hHwf
+    · intro m M hm hM; simp at hm hM; subst hm; subst hM; exact hlt
+    · intro e he
+      simp [RC.bounds, RC.view, VRange.bounds, RC.min, RC.max] at he
+      exact hb e (by simpa [clauseBounds] using he)
+  | eqStar =>
+    have hf := hfin (Or.inl rfl)
+    have hN := (eqStar_range V hf).2
+    have hlt := wildcard_ends_lt V hf hV
+    have hNwf : V.nextStable.wf = true := by
+      obtain ⟨h1, h2, h3, h4⟩ := final_parts hf
+      have hs : V.isStable = true := by simp [isStable, isUnstable, isPrerelease, isDevrelease, h1, h3]
+      have hne := wf_release_ne hV
+      have : V.nextStable = mk' V.epoch (incrLast V.release) none none none none := by
+        simp [nextStable, hs, h4, relNext_eq_incrLast _ hne]
+      rw [this]
+      exact wf_final _ _ (by
+        cases hr : V.release with
+        | nil => exact absurd hr hne
+        | cons a as => cases as <;> simp [incrLast])
+    refine ⟨_, (eqStar_range V hf).1, single _ (regMember_of_good hB _ ⟨?_, ?_⟩
+      ⟨fun h => by simp at h, fun h => by simp at h⟩ ?_)⟩
+    · intro e he; simp [VRange.bounds] at he
+      rcases he with rfl | rfl
+      · exact wf_firstDev hV
+      · exact wf_firstDev hNwf
+    · intro m M hm hM; simp at hm hM; subst hm; subst hM; exact hlt
+    · intro e he
+      simp [RC.bounds, RC.view, VRange.bounds, RC.min, RC.max] at he
+      exact hb e (by simpa [clauseBounds] using he)
+  | neStar =>
+    have hf := hfin (Or.inr rfl)
+    have hlt := wildcard_ends_lt V hf hV
+    have hNwf : V.nextStable.wf = true := by
+      obtain ⟨h1, h2, h3, h4⟩ := final_parts hf
+      have hs : V.isStable = true := by simp [isStable, isUnstable, isPrerelease, isDevrelease, h1, h3]
+      have hne := wf_release_ne hV
+      have : V.nextStable = mk' V.epoch (incrLast V.release) none none none none := by
+        simp [nextStable, hs, h4, relNext_eq_incrLast _ hne]
+      rw [this]
+      exact wf_final _ _ (by
+        cases hr : V.release with
+        | nil => exact absurd hr hne
+        | cons a as => cases as <;> simp [incrLast])
+    exact ⟨_, neStar_range V hf hV, twoSided_union_wf _ _ (wf_firstDev hV) (wf_firstDev hNwf) (le_of_lt hlt) true
+      (fun _ => hlt) (hb _ (by simp [clauseBounds])) (hb _ (by simp [clauseBounds]))⟩
+
+/-- `parse_constraint`'s left-to-right fold over the remaining clauses of a comma-joined set, in the regular
+setting: defined, closed, and its membership is the conjunction -/
+theorem foldClauses_reg {B : List Version} (hB : RegB B) (p : Version) (hp : p.wf = true) (hreg : Regular B p) :
+    ∀ (cs : List Spec.Clause) (acc : VC), acc.WF → (∀ x ∈ acc.flatten, RegMember B x) →
+    (∀ d ∈ cs, ClauseOk' d.op d.lit ∧ (∀ e ∈ clauseBounds d.op d.lit, e ∈ B) ∧
+      ∀ c, clauseVC d.op d.lit = .ok c → c.allows p = .ok (d.contains p)) →
+    ∃ res, cs.foldlM (fun acc d => do VC.intersect acc (← clauseVC d.op d.lit)) acc = .ok res ∧ res.WF ∧
+      (∀ x ∈ res.flatten, RegMember B x) ∧
+      res.allowsPlain p = (acc.allowsPlain p && cs.all (fun d => d.contains p))
+  | [], acc, hc, hm, _ => ⟨acc, rfl, hc, hm, by simp⟩
+  | d :: ds, acc, hc, hm, hds => by
+    obtain ⟨hok, hb, hsem⟩ := hds d (by simp)
+    obtain ⟨c, hcl, cwf, cm⟩ := clauseVC_reg hB d.op d.lit hok hb
+    obtain ⟨r, hr, hrwf, hrm, hrsem⟩ := VC.intersect_reg hB acc c hc cwf hm cm
+    obtain ⟨res, h1, h2, h3, h4⟩ := foldClauses_reg hB p hp hreg ds r hrwf hrm (fun e he => hds e (by simp [he]))
+    have hcp : c.allowsPlain p = d.contains p := by
+      have a := VC.allows_of_reg hB c cwf cm p
+      rw [hsem c hcl] at a
+      injection a with a; exact a.symm
+    refine ⟨res, by simp only [List.foldlM_cons, bind, Except.bind, hcl, hr]; exact h1, h2, h3, ?_⟩
+    rw [h4, hrsem p hp (hreg.mono (by
+      intro e he
+      simp only [List.mem_append, boundsOf, List.mem_flatMap] at he
+      rcases he with ⟨x, hx, hxe⟩ | ⟨x, hx, hxe⟩
+      · exact (hm x hx).2.2.2 e hxe
+      · exact (cm x hx).2.2.2 e hxe)), hcp]
+    simp [Bool.and_assoc]
+
+/-! ### deciding the regular setting on concrete bound sets -/
+
+/-- a Boolean check of `RegB` -/
+def regBCheck (B : List Version) : Bool :=
+  B.all (fun x => !x.isLocal && B.all (fun y => Version.eqv x y || decide (relKey x ≠ relKey y)))
+
+theorem RegB.of_check {B : List Version} (h : regBCheck B = true) : RegB B := by
+  simp only [regBCheck, List.all_eq_true, Bool.and_eq_true, Bool.not_eq_true', Bool.or_eq_true,
+    decide_eq_true_eq] at h
+  refine ⟨fun x hx y hy => ?_, fun e he => (h e he).1⟩
+  rcases (h x hx).2 y hy with h1 | h1
+  · exact Or.inl ((eqv_iff x y).1 h1)
+  · exact Or.inr h1
+
+/-- a Boolean check of `Regular` -/
+def regularCheck (B : List Version) (v : Version) : Bool :=
+  B.all (fun e => Version.eqv v e || decide (relKey v ≠ relKey e))
+
+theorem Regular.of_check {B : List Version} {v : Version} (h : regularCheck B v = true) : Regular B v := by
+  simp only [regularCheck, List.all_eq_true, Bool.or_eq_true, decide_eq_true_eq] at h
+  intro e he
+  rcases h e he with h1 | h1
+  · exact Or.inl ((vk_eq_iff v e).1 ((eqv_iff v e).1 h1))
+  · exact Or.inr h1
 
 end Poetry
